@@ -1030,6 +1030,163 @@ def complex_step_turn_rates(M, rec, rng, prop, reps, what):
                               {"turn_rates": betas, "sensitivities": sens, "derivative_of_the_share_formula": exact, "Q": Q})
 
 
+def complex_step_jacobians(M, rec, rng, prop, n_nets, with_options=False, what="the NumPy step"):
+    """Complex-step differentiation of the NumPy dynamics with respect to a STATE entry (x_j + 1e-30j, everything else real;
+    sensitivity = imag / 1e-30) against central finite differences of the same step on real numbers.  Whatever a primitive
+    does to the real part it does to the perturbation: clamps (identity where positive, zero where negative), merges, limits.
+    A disagreement is reported only where both one-sided differences agree with each other (away from a kink)."""
+    import copy
+
+    import numpy as np
+
+    NE, CE = drive.engines(M)
+    g = G.NetGen(rng)
+    h = 1e-30
+    for it in range(n_nets):
+        desc = copy.deepcopy(g.network(("merge", "chain", "ramp", "bifurcation", "random", "crossing")[it % 6], force=(("vsl",) if it % 3 == 0 else ()))[1])
+        if any(o.get("user") or o.get("user_cap_flow") is not None for o in desc["origins"]) or any(l.get("user_cap") is not None or l.get("user_reorder") for l in desc["links"]):
+            continue
+        pars = g.pars()
+        kw = drive.step_pars(pars)
+        _, vals = g.values(desc, "interior", allow_inf=False)
+        opts = {}
+        if with_options:
+            opts = {o_: True for o_ in ("positive_init_density", "positive_init_speed", "positive_next_density", "positive_next_speed") if rng.random() < 0.6} or {"positive_init_density": True}
+            for l_ in desc["links"]:  # some negative entries: the clamp cuts them (and their perturbation) to zero
+                for nm_ in ("rho", "v"):
+                    for i_ in range(l_["N"]):
+                        if rng.random() < 0.15:
+                            vals[l_["id"]][nm_][i_] = -abs(vals[l_["id"]][nm_][i_]) * 0.3
+        if R.is_singular(desc, vals):
+            continue
+        built = D.build(M, desc)
+        lk = rng.choice(desc["links"])
+        nm, idx = rng.choice(("rho", "v")), rng.randrange(lk["N"])
+        if with_options and vals[lk["id"]][nm][idx] < 0 and rng.random() < 0.5:
+            pass  # a clamped entry: the sensitivity to it is zero
+
+        def run(delta_real=0.0, complex_step=False):
+            ic = drive.np_init(built, vals, "vec1")
+            arr = ic[built.links[lk["id"]]][nm]
+            if complex_step:
+                arr = arr.astype(complex)
+                arr[idx] += 1j * h
+            else:
+                arr = arr.astype(float)
+                arr[idx] += delta_real
+            ic[built.links[lk["id"]]][nm] = arr
+            built.net.step(init_conditions=ic, engine=NE(), **opts, **kw)
+            out = {}
+            for eid_, el_ in list(built.links.items()) + list(built.origins.items()):
+                for k_, x_ in (el_.next_states or {}).items():
+                    out[(eid_, k_)] = np.asarray(x_).ravel().copy()
+            return out
+
+        x0 = vals[lk["id"]][nm][idx]
+        e = 1e-6 * (1.0 + abs(x0))
+        try:
+            with np.errstate(all="ignore"):
+                cz = run(complex_step=True)
+                fp, fm, f0 = run(e), run(-e), run(0.0)
+        except Exception as e_:
+            rec.count("complex_step_jacobian_runs_raised")
+            rec.seen("complex_step_jacobian_runs_raised", repr(e_)[:100])
+            continue
+        rec.count("complex_step_jacobian_runs")
+        for key, zc in cz.items():
+            d_cs = np.imag(zc) / h
+            d_p, d_m = (fp[key].real - f0[key].real) / e, (f0[key].real - fm[key].real) / e
+            d_fd = 0.5 * (d_p + d_m)
+            for i_ in range(len(d_cs)):
+                if not all(map(np.isfinite, (d_cs[i_], d_p[i_], d_m[i_]))):
+                    continue
+                scale = 1.0 + abs(d_fd[i_])
+                if abs(d_p[i_] - d_m[i_]) > 1e-3 * scale:
+                    continue  # a kink between the two sides
+                rec.count("complex_step_sensitivities_compared")
+                if abs(d_fd[i_]) > 1e-6:
+                    rec.count("complex_step_sensitivities_that_are_not_zero")
+                if abs(d_cs[i_] - d_fd[i_]) > 1e-3 * scale + 1e-5:
+                    rec.violation(f"{prop}:complex-step sensitivity of {what} with respect to a state entry differs from the finite difference of the same step"
+                                  + (" (positivity options on)" if opts else ""),
+                                  {"desc": desc, "vals": vals, "pars": pars, "opts": opts, "perturbed": [lk["id"], nm, idx], "output": [key[0], key[1], i_],
+                                   "complex_step": float(d_cs[i_]), "finite_difference": float(d_fd[i_])})
+                    break
+            else:
+                continue
+            break
+
+
+def ensembles_vs_single_scenarios(M, rec, rng, prop, reps):
+    """K traffic scenarios pushed through ONE NumPy `Network.step` of a corridor of single-segment links with metered / simplified
+    ramps at its nodes (also interior ones): scenario by scenario the next densities, speeds and queues are those of K separate
+    steps."""
+    import numpy as np
+
+    NE, CE = drive.engines(M)
+    T, tau, eta, kappa = 10 / 3600, 18 / 3600, 60.0, 40.0
+    for it in range(reps):
+        K = rng.choice((2, 3, 4))
+        nl = rng.choice((2, 3))
+        kinds = [(("ramp", "in"), ("ramp", "out"), ("simple", "limited"))[(it + j) % 3] for j in range(nl)]
+        caps = [round(rng.uniform(1200.0, 3000.0), 0) for _ in range(nl)]
+        delta = rng.choice((None, 0.0122))
+
+        def build():
+            nodes = [M.Node(name=f"N{j}") for j in range(nl + 1)]
+            links = [M.Link(1, 2, 1.0, 180.0, 33.5, 102.0, 1.867, name=f"L{j}") for j in range(nl)]
+            orgs = [(M.MeteredOnRamp(caps[j], kinds[j][1], name=f"O{j}") if kinds[j][0] == "ramp" else M.SimplifiedMeteredOnRamp(caps[j], kinds[j][1], name=f"O{j}")) for j in range(nl)]
+            path = [nodes[0]]
+            for j in range(nl):
+                path += [links[j], nodes[j + 1]]
+            net = M.Network().add_path(tuple(path), origin=orgs[0], destination=M.Destination(name="D"))
+            for j in range(1, nl):
+                net.add_origin(orgs[j], nodes[j])
+            return net, links, orgs
+
+        rho = [np.array([[rng.uniform(10.0, 150.0) for _ in range(K)]]) for _ in range(nl)]
+        v = [np.array([[rng.uniform(5.0, 100.0) for _ in range(K)]]) for _ in range(nl)]
+        w = [np.array([rng.uniform(0.0, 40.0) for _ in range(K)]) for _ in range(nl)]
+        d = [np.array([rng.uniform(300.0, 3000.0) for _ in range(K)]) for _ in range(nl)]
+        c = [np.array([rng.uniform(0.3, 1.0) if kinds[j][0] == "ramp" else rng.uniform(300.0, 2500.0) for _ in range(K)]) for j in range(nl)]
+
+        def run(cols):
+            net, links, orgs = build()
+            ic = {}
+            for j in range(nl):
+                ic[links[j]] = {"rho": rho[j][:, cols].copy(), "v": v[j][:, cols].copy()}
+                ic[orgs[j]] = {"w": w[j][cols].copy(), "d": d[j][cols].copy(), ("r" if kinds[j][0] == "ramp" else "q"): c[j][cols].copy()}
+            net.step(init_conditions=ic, engine=NE(), T=T, tau=tau, eta=eta, kappa=kappa, **({"delta": delta} if delta is not None else {}))
+            out = []
+            for j in range(nl):
+                out += [np.asarray(links[j].next_states["rho"], float).reshape(-1), np.asarray(links[j].next_states["v"], float).reshape(-1),
+                        np.asarray(orgs[j].next_states["w"], float).reshape(-1)]
+            return out
+
+        try:
+            with np.errstate(all="ignore"):
+                ens = run(slice(None))
+                singles = [run(slice(k_, k_ + 1)) for k_ in range(K)]
+        except Exception as e:
+            rec.count("ensemble_runs_raised")
+            rec.seen("ensemble_runs_raised", repr(e)[:120])
+            continue
+        rec.count("ensemble_vs_single_scenario_runs")
+        bad = None
+        for i_, arr in enumerate(ens):
+            for k_ in range(K):
+                exp_ = singles[k_][i_][0]
+                if arr.shape != (K,) or not (arr[k_] == exp_ or abs(arr[k_] - exp_) <= 1e-10 * (1 + abs(exp_)) or (np.isnan(arr[k_]) and np.isnan(exp_))):
+                    bad = (i_, k_, arr.tolist(), float(exp_))
+                    break
+            if bad:
+                break
+        if bad:
+            what = ("rho+", "v+", "w+")[bad[0] % 3]
+            rec.violation(f"{prop}:numpy: K scenarios pushed through one Network.step of a single-segment corridor with ramps do not give, scenario by scenario, what K separate steps give ({what})",
+                          {"K": K, "ramp_kinds": kinds, "element": bad[0] // 3, "scenario": bad[1], "in_the_ensemble": bad[2], "stepped_alone": bad[3]})
+
+
 def closed_loop(M, rec, rng, n_sims, steps, on_step=None, before_case=None):
     """Closed-loop NumPy simulations: next states fed back, peaked demand profiles,
     piecewise-constant random controls."""
